@@ -702,11 +702,13 @@ class RfSession:
     async def echo(self, payload: bytes):
         self.rx.clear()
         self.send_data(payload)
-        got = await self.atk.until(lambda: bytes(self.rx) if len(self.rx) >= len(payload) else None)
+        # (the victim's sink echoes everything it was given, in order: what it still owes for earlier hostile
+        # frames that carried VALID data - held back for lack of credits - legitimately precedes this echo)
+        got = await self.atk.until(lambda: bytes(self.rx) if payload in bytes(self.rx) else None)
         if got is None:
-            return f'no echo on the DLC (received {bytes(self.rx).hex()})'
-        if got != payload:
-            return f'echo differs: {got.hex()}'
+            return f'no echo on the DLC (received {bytes(self.rx)[-80:].hex()} after {len(self.rx)} octets)'
+        if not got.endswith(payload):
+            return f'echo followed by data nobody sent: {got[got.index(payload) + len(payload):][:40].hex()}'
         return None
 
 
